@@ -782,8 +782,15 @@ def _k_smallest(run, d, k):
 
 @specfn('ival')
 def _ival(run, s, j):
-    """element j of an int sequence"""
-    return Num(LC.mk_iat(s.term, intterm(j)))
+    """element j of an int sequence (an index array, or a Python list of ints)"""
+    if isinstance(s, Ref):
+        o = run.deref(s)
+        if isinstance(o, SymListO):
+            return unbox(run, o.elems[intterm(j)], o.ekind)
+    sv = _seq(run, s, None)
+    if sv.kind == 'R':
+        return Num(T.rat(sv.term, intterm(j)))
+    return Num(LC.mk_iat(sv.term, intterm(j)))
 
 
 @specfn('vstack')
@@ -1185,3 +1192,56 @@ smt.axiom('idedup.distinct', smt.forall([_u1, _i, _jm], z3.Implies(
 def _idedup(run, u):
     """list(set(u)): the members of u, each once"""
     return SeqV('I', idedup(_idx_seq(run, u).term), True)
+
+
+# ------------------------------------------------------------------------------ simulator split (C16)
+@specfn('floor_int')
+def _floor_int(run, x):
+    """int(x): truncation toward zero, as Python's int() on a float"""
+    t = real(x)
+    return Num(z3.If(t >= 0, z3.ToInt(t), -z3.ToInt(-t)))
+
+
+@specfn('component')
+def _item(run, tup, k):
+    """component k of a tuple result"""
+    if isinstance(tup, TupleV) and isinstance(k, Num) and k.concrete() is not None:
+        return tup.items[int(k.concrete())]
+    raise Unsupported('spec: item() of %r' % (tup,))
+
+
+def _slice_fn(kind):
+    return {'A': F('aslice', ASeq, Int, Int, ASeq), 'R': F('rslice', RSeq, Int, Int, RSeq)}[kind]
+
+
+@specfn('aslice')
+def _aslice(run, s, lo, hi):
+    return SeqV('A', _slice_fn('A')(_seq(run, s, 'A').term, intterm(lo), intterm(hi)))
+
+
+@specfn('rslice')
+def _rslice(run, s, lo, hi):
+    return SeqV('R', _slice_fn('R')(_seq(run, s, 'R').term, intterm(lo), intterm(hi)))
+
+
+@specfn('mslice')
+def _mslice(run, M, lo, hi):
+    return MatV(F('mslice', smt.Mat, Int, Int, smt.Mat)(M.term, intterm(lo), intterm(hi)))
+
+
+@specfn('field')
+def _field(run, rec, name):
+    """entry `name` of a dictionary literal with string keys"""
+    if isinstance(rec, RecordV) and isinstance(name, StrV) and name.s in rec.fields:
+        return rec.fields[name.s]
+    raise Unsupported('spec: field(%r, %r)' % (rec, name))
+
+
+@specfn('smin')
+def _smin(run, r):
+    return Num(LC.rmin(_seq(run, r, 'R').term))
+
+
+@specfn('smax')
+def _smax(run, r):
+    return Num(LC.rmax(_seq(run, r, 'R').term))
